@@ -24,9 +24,9 @@ sys.setrecursionlimit(max(sys.getrecursionlimit(), 20000))
 PROPERTIES = ["C15"]
 MANIFEST = {
     "C15": {
-        "technique": "Lean 4 proof + translator (tools/gen_json.py regenerates the escape tables of the tokenizer and of appendEscapedString from the current Json.cpp; model and theorems are stated over the generated tables). Lean 4 proof (total, memory-safe parser with in-text error positions; serialise-then-parse round trip by induction over value trees; stripComments = reference scanner) over an executable model of Json.cpp + differential correspondence model vs real Json.cpp (ASan/UBSan, exactly sized heap copies) + independent Python oracles (json.loads, comment scanner, serialiser)",
+        "technique": "Lean 4 proof + translator (tools/gen_json.py regenerates the escape tables of the tokenizer and of appendEscapedString by executing the current Json.cpp on every byte value; model and theorems are stated over the generated tables, which depend on the content of the escape logic only, not on its shape). Lean 4 proof (total, memory-safe parser with in-text error positions; serialise-then-parse round trip by induction over value trees; stripComments = reference scanner) over an executable model of Json.cpp + differential correspondence model vs real Json.cpp (ASan/UBSan, exactly sized heap copies) + independent Python oracles (json.loads, comment scanner, serialiser)",
         "text": "Kernel-checked theorems over ALL buffers / ALL value trees of the Lean model of Json.cpp: parse never runs out of its linear budget (parse_total) and never reads behind the end of a buffer that holds a NUL (parse_no_oob), for any size and nesting depth; every reported error is the (line, column) of an offset inside the text (error_pos_inside, error_pos_bounds); the result depends only on the bytes before the first NUL (parse_reads_only_cstr); for every tree of null/bool/int32/int64/NUL-free strings/lists/maps with distinct NUL-free keys, parse(toString v) succeeds with a tree equal to v under Variant::operator== (roundtrip; the only change is int64-that-fits-32-bits -> int); stripComments equals a four-mode byte-at-a-time reference on the C string of the buffer, keeps every CR/LF and only deletes bytes (strip_spec, strip_keeps_line_breaks, strip_sublist). The model is tied to the current Json.cpp on every run by executing identical op lines on both (all byte strings of length <=3 (thorough <=4, partly 5) over a 12..18-symbol alphabet for parse and strip, generated valid/lenient/erroneous documents, prefixes, mutations, token soup, type-directed value trees with quotes/backslashes/all control characters/UTF-8/non-BMP, 1000-deep documents, watchdog) and judged by oracles that do not go through the model.",
-        "note": "Trusted: Lean kernel + the three standard axioms; the hand translation of Json.cpp into lean/Nstd/Json/Model.lean (cursor = suffix of the buffer, a read at the empty suffix = out of bounds; loops with fuel; parseArray/parseObject inlined into parseValue + loop functions; appendEscapedString modelled byte-at-a-time instead of strpbrk jumps; the dead `scanf failed` branches after four checked hex digits are not modelled) - validated by the correspondence run, not proved. The translator tools/gen_json.py is trusted to read the two switch statements faithfully (it refuses any case group it does not recognise = broken tie; its output is exercised by the correspondence run); what the round trip needs of the generated tables (escape texts invert through the tokenizer's switch, every control character/quote/backslash is in the escaped set, escape letters are plain bytes, \\u00 prefix) are the closed `decide` lemmas of LemmasTables.lean, counted as obligations. string_token_has_string_value shows the model's Val.strOf default is unreachable. libc as Lean definitions (assumptions): atoll (sign, digits, saturating), sscanf %x on four hex digits, printf %d/%lld, isdigit/isxdigit/isspace in the C locale, strpbrk. Doubles (atof, %f) are opaque: a number token with '.' becomes `d` and is never compared; the round trip excludes doubles. String/Variant/List/HashMap of libnstd are modelled as values (byte list, tree, insertion-ordered assoc list with replace-on-repeat); Variant::operator== is modelled for the value kinds of the property. The C++ recursion depth (stack) is not modelled: the theorems are about unbounded depth, the real code is run on 1000-deep documents. Bytes after the first NUL of a longer buffer cannot influence the result (parse_reads_only_cstr: parse buf = parse (cstr buf ++ [0])). No theorem is partial; the model mirrors the sources WITH fixes/json/01..04 applied (D21-D24).",
+        "note": "Trusted: Lean kernel + the three standard axioms; the hand translation of Json.cpp into lean/Nstd/Json/Model.lean (cursor = suffix of the buffer, a read at the empty suffix = out of bounds; loops with fuel; parseArray/parseObject inlined into parseValue + loop functions; appendEscapedString modelled byte-at-a-time instead of strpbrk jumps; the dead `scanf failed` branches after four checked hex digits are not modelled) - validated by the correspondence run, not proved. The translator tools/gen_json.py reads the tables off the running code (op `tables` of the harness: toString of every one-byte string, parse of every backslash+letter); it assumes escaping is per byte and refuses observations it cannot interpret (= broken tie); its output is exercised by the correspondence run; what the round trip needs of the generated tables (escape texts invert through the tokenizer's switch, every control character/quote/backslash is in the escaped set, escape letters are plain bytes, \\u00 prefix) are the closed `decide` lemmas of LemmasTables.lean, counted as obligations. string_token_has_string_value shows the model's Val.strOf default is unreachable. libc as Lean definitions (assumptions): atoll (sign, digits, saturating), sscanf %x on four hex digits, printf %d/%lld, isdigit/isxdigit/isspace in the C locale, strpbrk. Doubles (atof, %f) are opaque: a number token with '.' becomes `d` and is never compared; the round trip excludes doubles. String/Variant/List/HashMap of libnstd are modelled as values (byte list, tree, insertion-ordered assoc list with replace-on-repeat); Variant::operator== is modelled for the value kinds of the property. The C++ recursion depth (stack) is not modelled: the theorems are about unbounded depth, the real code is run on 1000-deep documents. Bytes after the first NUL of a longer buffer cannot influence the result (parse_reads_only_cstr: parse buf = parse (cstr buf ++ [0])). No theorem is partial; the model mirrors the sources WITH fixes/json/01..04 applied (D21-D24).",
         "design_ref": "DESIGN.md 3/C15",
     }
 }
@@ -925,10 +925,12 @@ def check(ctx):
         "reference for accepted documents: CPython's json.loads (strict) on the UTF-8 decoded text; documents it rejects but nstd accepts "
         "(trailing commas, trailing text, raw control characters, unknown escapes, atoll numbers) are judged only by the model and by the position rule",
     ]
-    proof_ok = C.proof_stage(ctx, PROPS, [DRIVER], gen=gen_json.gen, leanchecker=(ctx.tier == "thorough"))
+    # the harness comes first: the translator reads the escape tables off the running code (op `tables`)
     harness = C.build_harness(ctx, "json", sources())
     if harness is None:
+        C.proof_stage(ctx, PROPS, [DRIVER], leanchecker=False)       # with the tables generated last
         return
+    proof_ok = C.proof_stage(ctx, PROPS, [DRIVER], gen=gen_json.gen_with(harness), leanchecker=(ctx.tier == "thorough"))
     if not C.driver_path(DRIVER).exists():
         harness.unlink()
         return
@@ -968,7 +970,7 @@ def check(ctx):
 def replay(ctx, path):
     h = C.parse_replay(path)
     harness = C.build_harness(ctx, "json", sources())
-    gen_json.run()
+    gen_json.run(harness=harness)
     C.lake_build([DRIVER])
     diffs = C.differential(ctx, harness, C.driver_path(DRIVER), [h], reference, C.default_eq)
     for d in diffs:
